@@ -335,16 +335,25 @@ ExpectedStd(scen) ==
   [chain |-> scen \notin {"UntrustedRoot", "Expired", "NotYetValid", "WrongName", "BadLeafSig",
                          "NameIP4Unlisted", "NameIP6BracketUnlisted", "NameIP6ZoneListed"},
    key   |-> scen # "WrongKey"]
-ExpectedCStd(cscen) ==
+\* structurally wrong proof-of-possession signatures: the peer holds the certificate's key object but
+\* hands out an empty signature, the genuine one truncated by one byte, or extended by one byte
+\* ("only the genuine signature proves possession")
+ServerSigBad == {"SigEmpty", "SigShort", "SigLong"}
+ClientSigBad == {"ClientSigEmpty", "ClientSigShort", "ClientSigLong"}
+\* `cas` is the class of the server's Config.ClientCAs: "with" (or "") a pool holding the root of the
+\* client's chain, "without" a pool holding only the other root, "empty" an empty pool, "nil" nothing
+\* configured.  The client's chain verifies "to the configured roots" only if they contain its root.
+ExpectedCStd(cscen, cas) ==
   [sent  |-> cscen \notin {"", "NoClientCert"},
-   chain |-> cscen \in {"ClientTrusted", "ClientWrongKey", "CorruptClientCV"},
+   chain |-> \/ cscen \in {"ClientTrusted", "ClientWrongKey", "CorruptClientCV"} \cup ClientSigBad /\ cas \in {"", "with"}
+             \/ cscen = "ClientUntrusted" /\ cas = "without",
    key   |-> cscen # "ClientWrongKey"]
 
 AuthDemand(o) ==
   LET std == o.std
-      serverBad == ~std.server_chain_ok \/ ~std.server_key_ok \/ o.fired \in ServerWire
+      serverBad == ~std.server_chain_ok \/ ~std.server_key_ok \/ o.fired \in ServerWire \/ o.sigfired # ""
       sent == std.client_sent /\ o.auth >= 1           \* a certificate is only sent when requested
-      popBad == sent /\ (~std.client_key_ok \/ o.fired = "CorruptClientCV")
+      popBad == sent /\ (~std.client_key_ok \/ o.fired = "CorruptClientCV" \/ o.csigfired # "")
       chainBad == sent /\ ~std.client_chain_ok
       serverMustFail == \/ o.auth \in {2, 4} /\ (~sent \/ popBad)          \* RequireAny / RequireAndVerify
                         \/ o.auth \in {3, 4} /\ chainBad                    \* verification requested
@@ -357,7 +366,7 @@ AuthDemand(o) ==
       mustComplete   |-> ~serverBad /\ ~serverMustFail /\ ~popBad]
 
 Judge27(o) ==
-  LET b == o.obs  d == AuthDemand(o)  es == ExpectedStd(o.scen)  ec == ExpectedCStd(o.cscen) IN
+  LET b == o.obs  d == AuthDemand(o)  es == ExpectedStd(o.scen)  ec == ExpectedCStd(o.cscen, o.cas) IN
   IF b.cpanic \/ b.spanic \/ b.chang \/ b.shang THEN "panic-or-hang"
   ELSE IF o.std.server_chain_ok # es.chain \/ o.std.server_key_ok # es.key \/ o.std.client_sent # ec.sent
           \/ (ec.sent /\ (o.std.client_chain_ok # ec.chain \/ o.std.client_key_ok # ec.key))
@@ -369,7 +378,8 @@ Judge27(o) ==
 
 Facts27(o) ==
   [kind |-> Judge27(o), vers |-> o.vers, scen |-> o.scen, cscen |-> o.cscen, auth |-> o.auth,
-   key |-> o.key, kx |-> IF o.suite = 0 THEN "T13" ELSE Tbl(o.suite).kx, fired |-> o.fired]
+   key |-> o.key, kx |-> IF o.suite = 0 THEN "T13" ELSE Tbl(o.suite).kx, fired |-> o.fired,
+   cas |-> o.cas, sigfired |-> o.sigfired, csigfired |-> o.csigfired]
 
 (* Multi-step authentication histories (harness/cmd/c27 runh): 2-3 connections sharing a
    ClientSessionCache and the server's ticket keys while the client's verification settings
@@ -468,7 +478,7 @@ Cause28(o, f) ==
 
 Problems28(o) ==
   { [kind |-> "log-mismatch", field |-> f, cause |-> Cause28(o, f), vers |-> o.vers, resumed |-> o.resumed,
-     second |-> o.second, done |-> o.done, rewritten |-> o.rewritten] : f \in BadFields28(o) }
+     second |-> o.second, done |-> o.done, rewritten |-> o.rewritten, late |-> o.late] : f \in BadFields28(o) }
 
 -----------------------------------------------------------------------------
 (* C32 - arbitrary peer behaviour.  An observation of harness/cmd/c32: a corruption (kind, record
@@ -505,6 +515,11 @@ Facts32(o) ==
   [kind |-> Judge32(o), fault |-> o.kind, sub |-> o.sub, dir |-> o.dir, idx |-> o.idx, pos |-> o.pos, calls |-> o.calls,
    rtype |-> o.rtype, vers |-> o.vers, suite |-> o.suite, auth |-> o.auth]
 
+\* the TLS <= 1.2 suites both sides enable at version v (no key exchange happens in a resumed
+\* connection, so no common curve is asked for)
+EnabledLegacy(cc, sc, v) ==
+  {x \in Rng(ClientOffer(cc)) \cap Rng(CfgLegacy(sc)) : SuiteOK(x, v, sc.key, TRUE)}
+
 (* Judge of one observed connection of an honest or downgrade-tampered run (C24).
    o = [c, s, down, second, ccert, obs]; obs as logged by harness/lib/tlsh.Observe.  The server's
    ClientAuthType (s.auth) and whether the client holds a certificate (ccert) are part of the
@@ -537,11 +552,18 @@ Judge24(o) ==
   ELSE IF b.cvers # b.svers \/ b.csuite # b.ssuite \/ b.calpn # b.salpn \/ b.cres # b.sres
           \/ ~b.ekmeq \/ ~b.dataok THEN "disagreement"
   ELSE IF b.cvers # n.vers THEN "version"
-  ELSE IF b.csuite \notin n.suites THEN "suite"
+  \* Negotiate's demand applies to resumed connections too.  A connection resumed under TLS <= 1.2
+  \* carries the session's suite instead of the preference winner; after a reconfiguration of the
+  \* server (o.reconf: o.s is the configuration in force now) that suite still has to be "a suite
+  \* both enabled": offered by the client and in the server's CURRENT list - else a full handshake.
+  ELSE IF o.reconf /\ b.cres /\ n.vers <= 12 /\ b.csuite \notin EnabledLegacy(o.c, o.s, n.vers) THEN "resumed-disabled-suite"
+  ELSE IF ~(o.reconf /\ b.cres /\ n.vers <= 12) /\ b.csuite \notin n.suites THEN "suite"
   ELSE IF b.calpn \notin n.alpn THEN "alpn"
   ELSE IF canaryBad THEN "canary"
   ELSE IF ~o.second /\ b.cres THEN "resumed-without-session"
-  ELSE IF o.second /\ b.cres # (o.c.tickets /\ o.s.tickets) THEN "resumption"
+  \* whether a reconfigured server still resumes is the ticket layer's business (C31)
+  ELSE IF o.second /\ ~o.reconf /\ b.cres # (o.c.tickets /\ o.s.tickets) THEN "resumption"
+  ELSE IF o.reconf /\ b.cres /\ ~(o.c.tickets /\ o.s.tickets) THEN "resumption"
   ELSE "ok"
 
 (* B level (model drift, never a violation): the handshake message types each side consumes in a
@@ -574,6 +596,7 @@ Facts24(o) ==
   LET n == Negotiate(o.c, o.s, o.down) IN
   [kind |-> Judge24(o), vers |-> n.vers, mode |-> n.mode, down |-> o.down, second |-> o.second,
    prefer |-> o.s.prefer, key |-> o.s.key, auth |-> o.s.auth, ccert |-> o.ccert, resumed |-> o.obs.sres,
+   reconf |-> o.reconf,
    server_restricts_tls13 |-> Server13Restricted(o.s),
    suite_in_server_list |-> IF o.obs.ssuite \in T13Suites THEN o.obs.ssuite \in Rng(Cfg13(o.s))
                             ELSE o.obs.ssuite \in Rng(CfgLegacy(o.s)),
